@@ -85,6 +85,11 @@ claim("C08", "model_checking",
       "Imports.tla executes the package's own top-level statements (re-extracted with ast on every run) for every public module as the first import; a `from X import n` that meets a partially initialised X is the ImportError, and the counterexample is the import chain; model and `python -c 'import m'` must agree in both directions. Serial.tla enumerates class x subset of constructor parameters / documented tunables set to non-default values (regular and falsy/edge variants) x nesting shapes (composites, nested composites, move-table entries, whole simulations); each configuration is round-tripped to_dict -> ase json -> lookup by registered name -> from_dict -> to_dict in a fresh interpreter and compared parameter by parameter and dictionary by dictionary.",
       "Trusted: TLC, the ast extractor (function-local and TYPE_CHECKING imports are dropped), the recipes that say what a non-default value is. The catalogue is re-introspected on every run; a serializable class without a recipe is a machinery error, not a silent gap.", "5 C08")
 
+claim("C07", "fault_enumeration",
+      "restart points enumerated from Restart.tla (ensemble x move-table shape x k in 0..n) and replayed from the bytes of the real restart file; TLC checks that Restart is a stuttering step when every future-relevant field is saved",
+      "Restart.tla defines the future-relevant fields per ensemble and the taint semantics of a restart (a field the dictionary does not determine is lost and makes every later state diverge); TLC enumerates <ensemble, table shape, n, k>. For every enumerated tuple the real driver runs with its default RestartObserver; for EVERY k the captured bytes of step k are loaded with read_json, rebuilt with <Driver>.from_dict, given a fresh calculator and continued; atoms, cell, momenta, reference energy, move history, labels of every move, particle counter, step counter and generator state must equal the uninterrupted run at every later step.",
+      "Trusted: TLC, ase.io.jsonio. Calculators are deterministic functions of the configuration. ForceBias/AdaptiveForceBias offer no from_dict: only that their restart observer writes loadable JSON. n = 4 (quick) / 6 (thorough), 1 / 3 seeds x 2 calculators.", "5 C07")
+
 NOT_YET = "check not built yet in this round (planned in DESIGN.md section 5); will be claimed once its spec and conformance harness exist"
 
 
